@@ -40,9 +40,13 @@ def jobs(tier):
     for h in HASHERS:
         for P in Ps:
             out.append(("hasher.%s.P%d" % (h, P), "job_hasher", dict(hasher=h, P=P, K=K if P < 131072 else 5)))
+    for h in HASHERS:
+        out.append(("hasher-seq.%s" % h, "job_hasher_seq", dict(hasher=h, P1=16384, P2=32768, K=5)))
+        out.append(("hasher-seq-down.%s" % h, "job_hasher_seq", dict(hasher=h, P1=65536, P2=16384, K=4)))
     for which in ("2a", "2c", "3a", "3c"):
         out.append(("tree.%s.single.P32768" % which, "job_tree", dict(which=which, shape="single", P=32768, K=4, order="reversed")))
         out.append(("tree.%s.nested3.P16384" % which, "job_tree", dict(which=which, shape="nested3", P=16384, K=2, order="symbolic" if which == "2a" else "reversed")))
+        out.append(("tree.%s.dir1.P16384" % which, "job_tree", dict(which=which, shape="dir1", P=16384, K=3, order="reversed")))
         out.append(("tree.%s.flat2.P32768" % which, "job_tree", dict(which=which, shape="flat2", P=32768, K=2, order="reversed")))
         if not q:
             out.append(("tree.%s.order2.P16384" % which, "job_tree", dict(which=which, shape="order2", P=16384, K=3, order="symbolic")))
@@ -113,6 +117,28 @@ def job_hasher(E, hasher, P, K, _mutants=None):
     _witness(E, s, P)
 
 
+def job_hasher_seq(E, hasher, P1, P2, K, _mutants=None):
+    """Two files hashed one after the other by the same process with different
+    piece lengths (module / class level state must not leak between them)."""
+    fs = AFS()
+    s0 = E.int("s0", 2 * P1 + 1, 3 * P1)          # three pieces: a padding piece is needed
+    s1 = E.int("s1", 1, K * P2)
+    p0 = fs.add("/data/f0", ("f", 0), s0)
+    p1 = fs.add("/data/f1", ("f", 1), s1)
+    E.note("files", ["f0", "f1"])
+    w = World(fs, mutants=_mutants)
+    try:
+        run_hasher(w, hasher, p0, P1)
+        root, layer, pieces, pad = run_hasher(w, hasher, p1, P2)
+    except Exception as ex:  # noqa: BLE001
+        E.fail("C02.hasher.no-exception", "%s: %s" % (type(ex).__name__, ex))
+        return
+    rroot, rlayer, npieces = orc.v2_reference(E, ABuf.file(("f", 1), s1), P2, "C02")
+    E.check(root == rroot, "C02.hasher-seq.root", "%s root after an earlier run with another piece length differs from reference" % hasher)
+    if tb(s1 > P2):
+        E.check(layer is not None and layer == rlayer, "C02.hasher-seq.layer")
+
+
 def job_tree(E, which, shape, P, K, order, _mutants=None):
     fs, sizes = cr.make_fs(E, shape, K, P, order=order, lo=1 if shape == "single" else 0)
     if shape != "single":
@@ -133,6 +159,26 @@ def job_tree(E, which, shape, P, K, order, _mutants=None):
 # ------------------------------------------------------------------ concrete
 
 def replay(params, model, notes, workdir, seed):
+    if "P1" in params:
+        P1, P2, hasher = params["P1"], params["P2"], params["hasher"]
+        s0, s1 = int(model["s0"]), int(model["s1"])
+        d0, d1 = refconc.content(("f", 0), s0, seed), refconc.content(("f", 1), s1, seed)
+        p0, p1 = os.path.join(workdir, "data", "f0"), os.path.join(workdir, "data", "f1")
+        refconc.write_file(p0, d0)
+        refconc.write_file(p1, d1)
+        mods = cr.real_torrentfile()
+        from harness import c10
+        H = mods["torrentfile.hasher"]
+        np_ = mods["torrentfile.mixins"].ProgMixin.NoProg()
+        c10._real_hasher(H, np_, hasher, p0, P1)
+        root, layer, _, _ = c10._real_hasher(H, np_, hasher, p1, P2)
+        rroot, rlayer = refconc.v2_file(d1, P2)
+        bad = []
+        if root != rroot:
+            bad.append("C02.hasher-seq.root")
+        if layer != (rlayer if rlayer is not None else rroot):
+            bad.append("C02.hasher-seq.layer")
+        return bad
     P = params["P"]
     if "hasher" in params:
         s = int(model["s0"])
